@@ -394,6 +394,13 @@ class CompDomain(Domain):
             return [("ok", Decomp(args[0]) if args else TOP, state)]
         if name == "len" and args:
             return [("ok", LenOf(args[0]), state)]
+        if name.startswith("self._") and name.count(".") == 1 and self.fn is not None and self.fn.cls is not None:
+            # a private helper of the serde class (e.g. the compress-or-not decision): interpreted in line
+            m = self.prog.method(self.fn.cls, name[5:], required=False)
+            if m is not None and m is not self.fn:
+                res = self.inline(node, m, args, kwargs, state)
+                if res is not None:
+                    return res
         return [("ok", TOP, state)]
 
     def binop(self, node, l, r, state):
